@@ -15,7 +15,8 @@ LEVEL = "exploration"
 RULE = (
     "Corpus structures (quick: 12 files; thorough: all that fit) under Hypothesis-drawn transformations: "
     "(1) proper rotation (uniform quaternion or one of the 24 exact axis permutations) + translation up to +-500 A; "
-    "(2) permutation of the atoms inside every residue; (3) order-preserving chain renaming and per-chain strictly "
+    "(2) permutation of the atoms inside every residue (on the parsed structure; and at file level: residues given two alternate "
+    "locations whose records are written adjacent, in blocks A..B.. or B..A..); (3) order-preserving chain renaming and per-chain strictly "
     "increasing residue renumbering (constant offset when gap detection is on; also onto shared numbers with insertion "
     "codes 57, 57A, 57B, ... with author-only identities as PDB input has); (4) re-serialisation of the same "
     "atoms (coordinates rounded to 3 decimals) as PDB and as mmCIF by the harness emitters, read back through "
@@ -257,7 +258,80 @@ def oracle_formats(case):
     return out
 
 
+def oracle_altloc_order(case):
+    """the same atom records, some residues carrying two alternate locations (0.7 / 0.3), written with the copies of
+    each atom adjacent, with all A records of a residue before all B records, and with B before A: the order of the
+    atoms inside a residue must not matter"""
+    from rnapolis.parser import read_3d_structure
+
+    fn = case["file"]
+    atoms = table_from_structure(corpus.structure(fn))
+    info = case.setdefault("_info", {})
+    if atoms is None:
+        info["skipped"] = True
+        return []
+    keys = []
+    for a in atoms:
+        k = (a["chain"], a["resseq"], a["icode"])
+        if k not in keys:
+            keys.append(k)
+    chosen = {keys[i % len(keys)] for i in case["residues"]}
+    dx, dy, dz = case["displacement"]
+    variants = {}
+    for order in ("interleaved", "blocks", "reverse-blocks"):
+        rows = []
+        i = 0
+        while i < len(atoms):
+            k = (atoms[i]["chain"], atoms[i]["resseq"], atoms[i]["icode"])
+            j = i
+            while j < len(atoms) and (atoms[j]["chain"], atoms[j]["resseq"], atoms[j]["icode"]) == k:
+                j += 1
+            block = atoms[i:j]
+            if k in chosen:
+                A = [dict(a, altloc="A", occ=0.7) for a in block]
+                B = [dict(a, altloc="B", occ=0.3, x=round(a["x"] + dx, 3), y=round(a["y"] + dy, 3), z=round(a["z"] + dz, 3)) for a in block]
+                if order == "interleaved":
+                    for a, b in zip(A, B):
+                        rows += [a, b]
+                elif order == "blocks":
+                    rows += A + B
+                else:
+                    rows += B + A
+            else:
+                rows += [dict(a) for a in block]
+            i = j
+        for n_, a in enumerate(rows):
+            a["serial"] = n_ + 1
+        if len(rows) > 99999:
+            info["skipped"] = True
+            return []
+        variants[order] = rows
+    os.makedirs(WORK_DIR, exist_ok=True)
+    results = {}
+    for order, rows in variants.items():
+        ext = case.get("ext", "pdb")
+        p = os.path.join(WORK_DIR, f"c05_{os.getpid()}_alt.{ext}")
+        with open(p, "w") as f:
+            f.write(atomtab.emit_pdb(rows) if ext == "pdb" else atomtab.emit_cif(rows, "?"))
+        try:
+            with open(p) as f:
+                s3 = read_3d_structure(f, None)
+        finally:
+            os.remove(p)
+        results[order] = normalise(annotate(s3, case.get("find_gaps", False)))
+    b = results["interleaved"]
+    info["nt"] = bool(b["basePairs"]) and bool(b["stackings"])
+    info["altloc"] = True
+    out = []
+    for order in ("blocks", "reverse-blocks"):
+        for k, what in diff(results["interleaved"], results[order]):
+            out.append(D(f"C05:{k}:depends-on-atom-order-in-file", f"{fn} ({case.get('ext', 'pdb')}): alternate-location copies adjacent vs {order}: {what}"))
+    return out
+
+
 def oracle(case):
+    if case["kind"] == "altloc-order":
+        return oracle_altloc_order(case)
     if case["kind"] == "formats":
         return oracle_formats(case)
     return oracle_transform(case)
@@ -288,6 +362,8 @@ def classify(case):
         nontrivial = bool(info.get("nt"))
         if info.get("moved"):
             labs.append("formats-after-rigid-motion")
+        if info.get("altloc"):
+            labs.append("atom-order-in-file-with-alternate-locations")
         if info.get("wide-coordinates"):
             labs.append("coordinate<=-100-or>=1000")
     if info.get("undecided"):
@@ -326,17 +402,28 @@ def st_formats(files):
                                   "rot": st.one_of(st.none(), st.integers(0, 23)), "shift": st.lists(comp, min_size=3, max_size=3)})
 
 
+def st_altloc(files):
+    from hypothesis import strategies as st
+
+    return st.fixed_dictionaries({"kind": st.just("altloc-order"), "file": st.sampled_from(files), "ext": st.sampled_from(["pdb", "cif"]),
+                                  "residues": st.lists(st.integers(0, 500), min_size=1, max_size=4),
+                                  "displacement": st.sampled_from([[1.0, 0.0, 0.0], [0.0, 1.5, 0.5], [0.7, 0.7, 0.7], [0.0, 0.0, 2.5]]),
+                                  "find_gaps": st.booleans()})
+
+
 def plan(tier, seed):
     if tier == "quick":
         files = corpus.SMALL + ["1ehz-assembly-1.cif", "488d.pdb"]
         specs = [{"kind": "transform", "files": files, "examples": 40, "seed": seed * 1000 + k} for k in range(16)]
         specs += [{"kind": "formats", "files": [f]} for f in files]
         specs += [{"kind": "formats-moved", "files": corpus.SMALL, "examples": 12, "seed": seed * 1000 + 500 + k} for k in range(8)]
+        specs += [{"kind": "altloc-order", "files": corpus.SMALL[:8], "examples": 10, "seed": seed * 1000 + 600 + k} for k in range(4)]
     else:
         files = corpus.SMALL + corpus.MEDIUM + ["4qln.cif", "6g90_1.cif"]
         specs = [{"kind": "transform", "files": files, "examples": 150, "seed": seed * 1000 + k} for k in range(48)]
         specs += [{"kind": "formats", "files": [f]} for f in corpus.all_files()]
         specs += [{"kind": "formats-moved", "files": corpus.SMALL + corpus.MEDIUM, "examples": 150, "seed": seed * 1000 + 500 + k} for k in range(16)]
+        specs += [{"kind": "altloc-order", "files": corpus.SMALL + corpus.MEDIUM, "examples": 80, "seed": seed * 1000 + 600 + k} for k in range(16)]
     return specs
 
 
@@ -345,7 +432,10 @@ def run_shard(spec) -> ShardResult:
 
     res = ShardResult()
     files = [f for f in spec["files"] if f in corpus.all_files()]
-    if spec["kind"] == "formats-moved":
+    if spec["kind"] == "altloc-order":
+        run_hypothesis(PROP_ID, st_altloc(files), oracle, seed=spec["seed"], max_examples=spec["examples"], result=res,
+                       to_json=to_json, classify=classify, shrink=False)
+    elif spec["kind"] == "formats-moved":
         run_hypothesis(PROP_ID, st_formats(files), oracle, seed=spec["seed"], max_examples=spec["examples"], result=res,
                        to_json=to_json, classify=classify, shrink=False)
     elif spec["kind"] == "transform":
